@@ -156,6 +156,8 @@ def C03(ctx):
         r2 += ctx.export('FamilyR2(p, 4)', pre_sample=1500)
     ctx.design_inject(r2, maxcalls=2, limit=200 if ctx.quick else 600, label='family R2 ')
     extra += r2
+    # the generated error / cleanup variables next to live package-level variables called err, err2, cleanup, cleanup2
+    extra += ctx.export('FamilyNVar(p, {"err", "err2", "cleanup", "cleanup2"})', extends='WireNames')
     ctx.res.cov['fault_points'] += sum(n_fault_points(c) for c in extra)
     ctx.run(extra, nontrivial=lambda c: True, runtime=True, switches=E_C)
     if not ctx.quick:
@@ -177,7 +179,8 @@ def C04(ctx):
     big = ctx.export('FamilyR(p, 4)', pre_sample=500 if ctx.quick else None)
     ctx.run(only_success(big), nontrivial=nt, runtime=True, switches=(False, False, True))
     ctx.run(only_success(ctx.export('FamilyChain(p, {12})' if ctx.quick else 'FamilyChain(p, {11, 12, 25})')
-                         + ctx.export('FamilyR2(p, 3)', pre_sample=200 if ctx.quick else None)), nontrivial=nt, runtime=True, switches=(False, False, True))
+                         + ctx.export('FamilyR2(p, 3)', pre_sample=200 if ctx.quick else None)
+                         + ctx.export('FamilyNVar(p, {"err", "err2", "cleanup", "cleanup2"})', extends='WireNames')), nontrivial=nt, runtime=True, switches=(False, False, True))
     if not ctx.quick:
         ctx.run(only_success(ctx.export('FamilyR(p, 5)', pre_sample=3000) + ctx.export('FamilyRBig(p, 6, 200)') + ctx.export('FamilyRBig(p, 7, 200)')),
                 nontrivial=nt, runtime=True, switches=(False, False, True))
@@ -345,6 +348,8 @@ def C13(ctx):
     cases = ctx.export('FamilyE(p, %d)' % (2 if ctx.quick else 3), extends='WireValueExpr', caseop='CaseE', pre_sample=None if ctx.quick else 9000)
     ctx.res.cov['exhaustive'] = ctx.quick
     ctx.run(cases, runtime=False, notes=True, build=True)
+    # value variables are shared per expression *node*, never per expression text or type
+    ctx.run(ctx.export('FamilyX(p, {"same-text-values-two-packages", "two-unnamed-values"})'), nontrivial=lambda c: True, runtime=True, switches=ALL)
 
 
 def names_model(ctx):
